@@ -35,7 +35,15 @@ P = 'circus.process:Process.'
 
 
 def check(run, ctx):
-    run.each(ctx, [r1, r2, r3, r4, r5, r6, r7])
+    run.each(ctx, [r1, r2, r3, r4, r5, r6, r7, r8])
+
+
+def r8(run, ctx):
+    from rules import c02
+    run.share(ctx, c02.r2, 'R2', 'R8', 'the result of kill_process means "terminated, may be '
+              'forgotten" (shared with C02 R2): it is true only after Process.stop(), never for a '
+              'kill that is merely in flight - otherwise R2\'s "removal after a true kill result" '
+              'untracks live workers')
 
 
 def registrations(ctx, f):
